@@ -111,6 +111,24 @@ fn gen(ctx: &GenCtx, i: u64) -> Option<Run> {
             }
         }
     }
+    if i % 40 == 39 {
+        // scale: a few hundred distinct claims in one token (map growth and rehashing under the seeded hasher,
+        // anything that keeps a fixed number of entries inline)
+        let many = *r.pick(&[17usize, 33, 65, 129, 300]);
+        for k in 0..many {
+            let key_k = format!("k{:03}", k);
+            let c = match k % 4 {
+                0 => ClaimSpec::Custom { key: key_k, value: serde_json::json!(k) },
+                1 => ClaimSpec::Native { key: key_k, val: NativeVal::Str(format!("v{}", k)) },
+                2 => ClaimSpec::CustomRef { key: key_k, value: serde_json::json!([k, null]) },
+                _ => ClaimSpec::Bare { key: key_k, value: serde_json::json!({"n": k}) },
+            };
+            rb.push(Op::BuilderOp { b, op: BOp::SetClaim(c) });
+        }
+        for k in (0..many).step_by(7) {
+            rb.push(Op::BuilderOp { b, op: BOp::RemoveClaim(format!("k{:03}", k)) });
+        }
+    }
     let out = rb.msg();
     rb.push(Op::Build { b, key, out, entropy_seed: r.next(), entropy_fail: vec![], observe: false, now_ns: Ns(SENTINEL_NOW) });
     // the reading parser: usually plain; sometimes with accepting validators on keys the token may or may
